@@ -141,3 +141,14 @@ META["C13"] = {
     "note": "Exhaustive over fault positions of the listed workloads. Drop-time errors excluded as the property says.",
     "technique": "runtime monitoring: exhaustive single-fault injection with API-call attribution + durability readback",
 }
+
+META["C14"] = {
+    "text": "Exploration over schedules with three cooperating monitors: a deterministic lock-discipline monitor on the instrumented "
+            "RwLock (re-entrant acquisition = the hazard the quantifier names), real-thread runs with a forced bad schedule and with "
+            "random delays plus a wait-for-state deadlock certificate and an offline result check, and Miri's randomised scheduler on "
+            "the real std RwLock.",
+    "design_ref": "DESIGN.md section 2, C14",
+    "note": "Uses the cfg(cfb_verif) lock hook (src/internal/sync.rs); Miri explores a small fixed program only.",
+    "technique": "runtime monitoring: instrumented-lock discipline monitor + stress with injected delays + Miri schedule exploration",
+}
+HOOKS["source_commits"] = ["d2da82d"]
